@@ -103,6 +103,12 @@ def gen_constants():
     return rc == 0, out.strip()
 
 
+def gen_source_model():
+    """translator route: regenerate Model/GenIte.lean and Model/GenFF.lean from the source text"""
+    rc, out = sh([sys.executable, os.path.join(ROOT, "tools", "gen_source_model.py")])
+    return rc == 0, [l for l in out.strip().split("\n") if "->" in l]
+
+
 def lake_build(targets):
     with Lock("lake"):
         rc, out = sh(["lake", "build"] + targets, cwd=LEAN, timeout=3600)
@@ -231,6 +237,10 @@ def run_property(pid, tier, seed):
     report["constants"] = consts
     if not ok:
         broken.append("constants translator: " + consts[-300:])
+    ok, translated = gen_source_model()
+    report["translated"] = translated
+    if not ok:
+        broken.append("source translator failed to run")
 
     # ---- proof obligations
     targets = list(cfg["modules"]) + ["RsddModel.Audit", "rsdd_model_driver"]
@@ -365,6 +375,7 @@ def run_property(pid, tier, seed):
             "verdict_histogram": hist,
             "streams": report["streams"],
             "constants_from_source": consts,
+            "definitions_translated_from_source": translated,
             "broken": broken,
             "explanation": cfg.get("explanation", ""),
         },
@@ -386,6 +397,9 @@ def run_property(pid, tier, seed):
 def setup():
     ok, c = gen_constants()
     print("constants:", c)
+    okt, tr = gen_source_model()
+    print("translated:", tr)
+    ok = ok and okt
     ok1, out = lake_build(["RsddModel", "rsdd_model_driver"])
     print(out[-2000:])
     ok2, out2 = build_harness()
